@@ -175,6 +175,19 @@ CLAIMED["C08"] = dict(
     technique="Lean 4 proof (accumulator invariant by induction over directive groups) + executable-spec oracle over the real evaluator's output + differential correspondence",
     design="DESIGN.md#c08",
 )
+CLAIMED["C09"] = dict(
+    engine="E-modify",
+    text="Lean theorems: each rewrite cache refines the plain IR view for every history — ReferenceCache of direct "
+    "assignment, ReturnEdgeCache of a scan of the edge set, BlockOrdering of the list of blocks (C20, restated), "
+    "functions_by_block of functionBlocks (mirror invariant); the only state _apply_modifications carries between "
+    "the modifications of a block is the running offset: a request list processed in one go equals a prefix "
+    "followed by the rest (bytes and positions). Oracle: the real module after one apply() against the module "
+    "obtained by applying the requests one at a time in fresh contexts (canonical dumps); after every recorded "
+    "operation of the batch run the caches' answers against the IR. Partial: batch = sequential for whole modules "
+    "is decided by the differential run, not by a theorem about the full model.",
+    technique="Lean 4 proof (refinement theorems of the caches, induction over the request list) + differential run batch vs. one-at-a-time on the real code + cache-vs-IR comparison at every recorded step",
+    design="DESIGN.md#c09",
+)
 
 ALL = ["C%02d" % i for i in range(1, 21)]
 
@@ -216,7 +229,7 @@ def main():
         "engines": [
             {"name": "E-abi", "path": "lean/GtirbVerif/Model/Abi", "serves_properties": ["C16", "C17"], "kind_free_text": "abstract machine + Lean models of _allocate_patch_registers, the four prologue/epilogue generators and CallPatch; tables regenerated from abi._ABIS"},
             {"name": "E-adt", "path": "lean/GtirbVerif/Model/Adt", "serves_properties": ["C20", "C09"], "kind_free_text": "Lean models of ReferenceCache, ReturnEdgeCache, make_return_cache, BlockOrdering, OffsetMapping, IdentitySet with refinement proofs"},
-            {"name": "E-modify", "path": "lean/GtirbVerif/Model/IR", "serves_properties": ["C01", "C02", "C03", "C04", "C05", "C06", "C08"], "kind_free_text": "abstract GTIRB IR + Lean models of edit_byte_interval, split_block, are_joinable/join_blocks, remove_block, insert, delete, _cleanup_modified_blocks, the offset loop of _apply_modifications; listing specification (Spec/Listing*.lean)"},
+            {"name": "E-modify", "path": "lean/GtirbVerif/Model/IR", "serves_properties": ["C01", "C02", "C03", "C04", "C05", "C06", "C08", "C09"], "kind_free_text": "abstract GTIRB IR + Lean models of edit_byte_interval, split_block, are_joinable/join_blocks, remove_block, insert, delete, _cleanup_modified_blocks, the offset loop of _apply_modifications; listing specification (Spec/Listing*.lean)"},
             {"name": "E-dwarf", "path": "lean/GtirbVerif/Model/Dwarf", "serves_properties": ["C14", "C15"], "kind_free_text": "Lean model of dwarf/_encoders,_encodable,expr,cfi,cfi_eval + regenerated tables"},
         ],
         "checks": checks,
